@@ -95,7 +95,7 @@ let model_lines ast =
   let obs = List.map string_of_cs (dsl_observe o) in
   let res = List.hd obs in
   (* a deterministic crash of the code (recorded finding): the implementation's trace ends with a CRASH line *)
-  if res = "abort:cycle" || res = "abort:nullimport" then (res, ["CRASH"])
+  if res = "abort:cycle" then (res, ["CRASH"])
   else (res, List.map2 (fun l s -> l ^ s) labels obs @ ["det 1"])
 
 let op_dsl_eval a =
